@@ -68,6 +68,18 @@ def import_lark():
     import lark, logging
     assert os.path.abspath(lark.__file__).startswith(os.path.abspath(REPO) + os.sep), (lark.__file__, REPO)
     lark.logger.setLevel(logging.CRITICAL + 10)
+    # every lark module is imported now, single-threaded: a task thread that imported one lazily would execute module code under
+    # the tracer while holding the import lock, and a pre-emption there deadlocks the baton scheduler
+    import importlib, pkgutil
+    for m in pkgutil.walk_packages(lark.__path__, 'lark.'):
+        if m.name.startswith(('lark.__pyinstaller', 'lark.tools.nearley')):
+            continue
+        try:
+            importlib.import_module(m.name)
+        except Exception:
+            pass
+    from sim import seams
+    seams.install()
     return lark
 
 
@@ -218,20 +230,41 @@ def _worker_init():
     signal.signal(signal.SIGINT, signal.SIG_IGN)
 
 
-def _run_chunk(start, count, keep_digest, chunk_wall, deadline):
-    """executed in a forked worker: runs [start, start+count), stopping early at the batch deadline"""
+def _spawn_init(modname, tier, seed):
+    """initialiser of a *spawned* worker (fresh interpreter under the pool's PYTHONHASHSEED): load the check and set it up"""
+    global _CHECK, _TIER, _SEED
+    _worker_init()
+    if VERIF not in sys.path:
+        sys.path.insert(0, VERIF)
+    import importlib
+    chk = importlib.import_module(modname).CHECK
+    chk.setup(tier)
+    _CHECK, _TIER, _SEED = chk, tier, seed
+
+
+def _warm(delay):
+    time.sleep(delay)         # keeps this worker busy so that the executor starts one process per warm-up task
+    return os.environ.get('PYTHONHASHSEED'), os.getpid()
+
+
+def _run_chunk(start, count, keep_digest, chunk_wall, deadline, stride=1, offset=0):
+    """executed in a worker: runs the indices offset + stride*t for t in [start, start+count), stopping early at the batch deadline"""
     check, tier, seed = _CHECK, _TIER, _SEED
     agg = Agg()
     t_begin = time.time()
     faulthandler.dump_traceback_later(chunk_wall, exit=True)
     try:
-        for i in range(start, start + count):
+        for t in range(start, start + count):
+            i = offset + stride * t
             if time.time() > deadline:
                 break
             rs = run_seed(seed, check.ID, i)
             try:
+                t_run = time.time()
                 plan = check.gen_plan(random.Random(rs), tier)
                 out = check.execute(plan)
+                if os.environ.get('VERIF_DEBUG') and time.time() - t_run > 10:
+                    sys.stderr.write('debug: slow run %d: %.1fs %s\n' % (i, time.time() - t_run, json.dumps(plan)[:600]))
             except Exception:
                 # an exception of the harness itself is never a verdict: it is reported as HARNESS-ERROR by the driver
                 agg.harness_errors.append('run %d: %s' % (i, traceback.format_exc()[-1500:]))
@@ -249,7 +282,7 @@ def _run_chunk(start, count, keep_digest, chunk_wall, deadline):
 
 def _run_plans(plans):
     agg = Agg()
-    faulthandler.dump_traceback_later(600, exit=True)
+    faulthandler.dump_traceback_later(900, exit=True)
     try:
         for i, plan in plans:
             out = _CHECK.execute(plan)
@@ -261,77 +294,171 @@ def _run_plans(plans):
     return agg
 
 
+def _shrink_task(plan, decisions, viol):
+    """minimise a violation inside a worker of the pool (= under the hash seed) that found it"""
+    check = _CHECK
+    kind = viol['kind']
+
+    def fails(p, d=None):
+        try:
+            o = check.execute(p, forced=d)
+        except Exception:
+            return None
+        return o if (o.violation is not None and o.violation['kind'] == kind) else None
+    faulthandler.dump_traceback_later(900, exit=True)
+    try:
+        mplan, mdec = check.shrink(plan, decisions, viol, fails)
+        o = fails(mplan, mdec)
+        if o is None:            # shrinking went wrong: fall back to the original
+            mplan, mdec = plan, decisions
+            o = fails(plan, decisions) or fails(plan, None)
+        mviol = o.violation if o is not None else viol
+        if o is not None and not mdec:
+            mdec = o.decisions
+        return mplan, mdec, mviol, check.signature(mplan, mviol), o is not None
+    finally:
+        faulthandler.cancel_dump_traceback_later()
+
+
 class HarnessError(Exception):
     pass
 
 
-def search(check, tier, seed, budget_s, workers, keep_digest=False, max_runs=None, stop_on_violation=True, log=print):
-    """seeded search over run indices 0,1,2,... sharded in chunks over forked workers"""
-    global _CHECK, _TIER, _SEED
-    _CHECK, _TIER, _SEED = check, tier, seed
-    agg = Agg()
-    t0 = time.time()
-    deadline = t0 + budget_s
-    nxt = 0
-    chunk = check.CHUNK
-    rate_ema = None
-    ctx = mp.get_context('fork')
-    chunk_wall = max(120, int(budget_s))
-    broken = None
-    with ProcessPoolExecutor(max_workers=workers, mp_context=ctx, initializer=_worker_init) as ex:
-        pending = {}
+def pool_hashseeds(seed, k):
+    """the PYTHONHASHSEED of each worker pool: pool 0 always runs under the check process's own seed"""
+    own = int(os.environ.get('PYTHONHASHSEED', '0') or 0)
+    return [own] + [1 + mix(seed, 'hashseed', j) % 4000000000 for j in range(1, k)]
 
-        def submit():
-            nonlocal nxt
-            n = chunk if max_runs is None else min(chunk, max_runs - nxt)
+
+class Searcher:
+    """seeded search over run indices 0,1,2,... sharded in chunks over worker pools.
+
+    With one pool the workers are forked from this process (and share what setup() built).  With several pools every pool is a set
+    of *spawned* interpreters under its own PYTHONHASHSEED -- str hashing, hence the iteration order of every set of names inside
+    lark (LALR lookahead sets, parse-table rows, contextual lexer states), is then another source of nondeterminism the search
+    varies.  Pool j owns the run indices i with i % K == j, so which hash seed a run index meets is a function of the index."""
+
+    def __init__(self, check, tier, seed, workers, hashseeds=None, log=print):
+        global _CHECK, _TIER, _SEED
+        _CHECK, _TIER, _SEED = check, tier, seed
+        self.check, self.tier, self.seed, self.log = check, tier, seed, log
+        self.hashseeds = hashseeds or [int(os.environ.get('PYTHONHASHSEED', '0') or 0)]
+        self.K = len(self.hashseeds)
+        self.pools = []
+        per = max(1, workers // self.K)
+        self.workers = per * self.K
+        if self.K == 1:
+            ex = ProcessPoolExecutor(max_workers=workers, mp_context=mp.get_context('fork'), initializer=_worker_init)
+            self.pools.append(ex)
+            self.workers = workers
+            self.per = workers
+        else:
+            self.per = per
+            saved = os.environ.get('PYTHONHASHSEED')
+            modname = type(check).__module__
+            try:
+                for hs in self.hashseeds:
+                    os.environ['PYTHONHASHSEED'] = str(hs)
+                    ex = ProcessPoolExecutor(max_workers=per, mp_context=mp.get_context('spawn'), initializer=_spawn_init, initargs=(modname, tier, seed))
+                    warm = [ex.submit(_warm, 0.5) for _ in range(per)]
+                    got = {f.result(timeout=600) for f in warm}
+                    if {g[0] for g in got} != {str(hs)}:
+                        raise HarnessError('worker pool did not start under PYTHONHASHSEED=%s: %r' % (hs, got))
+                    self.pools.append(ex)
+            finally:
+                if saved is None:
+                    os.environ.pop('PYTHONHASHSEED', None)
+                else:
+                    os.environ['PYTHONHASHSEED'] = saved
+
+    def pool_of(self, idx):
+        if isinstance(idx, int):
+            return (idx % self.K) if idx >= 0 else ((-idx - 1) % self.K)
+        return 0
+
+    def close(self):
+        for ex in self.pools:
+            ex.shutdown(wait=False, cancel_futures=True)
+
+    def shrink(self, idx, plan, decisions, viol):
+        f = self.pools[self.pool_of(idx)].submit(_shrink_task, plan, decisions, viol)
+        return f.result(timeout=1800)
+
+    def run(self, budget_s, keep_digest=False, max_runs=None, stop_on_violation=True):
+        check, tier, K = self.check, self.tier, self.K
+        agg = Agg()
+        t0 = time.time()
+        deadline = t0 + budget_s
+        nxt = [0] * K                     # per pool: next position t of its index stream (index = j + K*t)
+        chunk = check.CHUNK
+        rate_ema = None
+        chunk_wall = max(180, int(budget_s))
+        broken = None
+        pending = {}
+        npend = [0] * K
+
+        def submit(j):
+            n = chunk
+            if max_runs is not None:
+                remaining = (max_runs - j + K - 1) // K - nxt[j]       # how many indices < max_runs pool j still owns
+                n = min(n, remaining)
             if n <= 0:
                 return False
-            f = ex.submit(_run_chunk, nxt, n, keep_digest, chunk_wall, deadline if max_runs is None else float('inf'))
-            pending[f] = (nxt, n, time.time())
-            nxt += n
+            f = self.pools[j].submit(_run_chunk, nxt[j], n, keep_digest, chunk_wall, deadline if max_runs is None else float('inf'), K, j)
+            pending[f] = (j, n, True)
+            npend[j] += 1
+            nxt[j] += n
             return True
 
-        # enumerated plans first (exhaustive parts), in blocks
         enum_iter = iter(check.enumerated_plans(tier))
         enum_done = False
         enum_idx = 0
         enum_total = 0
 
-        def submit_enum():
+        def submit_enum(j):
             nonlocal enum_done, enum_idx, enum_total
             block = []
             for plan in enum_iter:
+                # enumerated case n gets index -(n+1) and belongs to pool n % K
                 block.append((-(enum_idx + 1), plan))
                 enum_idx += 1
-                if len(block) >= 64:
+                if len(block) >= 48:
                     break
             if not block:
                 enum_done = True
                 return False
+            # (a block goes to one pool; which enumerated case meets which hash seed does not matter for a replay: the file records it)
+            for k, (i_, p_) in enumerate(block):
+                block[k] = (-(((-i_ - 1) // K) * K + j + 1), p_) if K > 1 else (i_, p_)
             enum_total += len(block)
-            f = ex.submit(_run_plans, block)
-            pending[f] = (None, len(block), time.time())
+            f = self.pools[j].submit(_run_plans, block)
+            pending[f] = (j, len(block), False)
+            npend[j] += 1
             return True
 
         stop = False
+        exhausted = [False] * K
         try:
             while True:
-                while not stop and len(pending) < workers * 2:
-                    if not enum_done:
-                        if submit_enum():
-                            continue
-                    if time.time() >= deadline:
-                        break
-                    if not submit():
-                        break
+                for j in range(K):
+                    while not stop and npend[j] < self.per * 2:
+                        if not enum_done:
+                            if submit_enum(j):
+                                continue
+                        if time.time() >= deadline or exhausted[j]:
+                            break
+                        if not submit(j):
+                            exhausted[j] = True
+                            break
                 if not pending:
                     break
                 done, _ = wait(list(pending), timeout=5, return_when=FIRST_COMPLETED)
                 for f in done:
-                    st, n, ts = pending.pop(f)
+                    j, n, is_search = pending.pop(f)
+                    npend[j] -= 1
                     part = f.result()
                     agg.merge(part)
-                    if st is not None and part.runs:
+                    if is_search and part.runs:
                         # size chunks from the time the worker actually spent (never from queueing delay): ~1.5 s each
                         per_run = max(getattr(part, 'elapsed', 0.0), 1e-4) / part.runs
                         rate_ema = per_run if rate_ema is None else 0.8 * rate_ema + 0.2 * per_run
@@ -343,16 +470,24 @@ def search(check, tier, seed, budget_s, workers, keep_digest=False, max_runs=Non
                 if time.time() >= deadline and enum_done and not pending:
                     break
                 if time.time() >= deadline and not enum_done and tier == 'quick':
-                    # the quick tier never enumerates more than its budget allows
-                    enum_done = True
+                    enum_done = True       # the quick tier never enumerates more than its budget allows
         except BrokenProcessPool as e:
             broken = e
-    if broken is not None:
-        raise HarnessError('worker pool died (a worker was killed or exceeded its wall limit): %r' % (broken,))
-    agg.wall = time.time() - t0
-    agg.enumerated = enum_total
-    agg.enum_complete = enum_done and not stop
-    return agg
+        if broken is not None:
+            raise HarnessError('worker pool died (a worker was killed or exceeded its wall limit): %r' % (broken,))
+        agg.wall = time.time() - t0
+        agg.enumerated = enum_total
+        agg.enum_complete = enum_done and not stop
+        return agg
+
+
+def search(check, tier, seed, budget_s, workers, keep_digest=False, max_runs=None, stop_on_violation=True, log=print, hashseeds=None):
+    """one-shot form (used by the self-tests)"""
+    s = Searcher(check, tier, seed, workers, hashseeds=hashseeds, log=log)
+    try:
+        return s.run(budget_s, keep_digest=keep_digest, max_runs=max_runs, stop_on_violation=stop_on_violation)
+    finally:
+        s.close()
 
 
 # ----------------------------------------------------------------------------------------------- known findings
@@ -374,12 +509,12 @@ def load_known():
 
 
 # ----------------------------------------------------------------------------------------------- replay files
-def write_replay(check, seed, idx, plan, decisions, violation, note=''):
+def write_replay(check, seed, idx, plan, decisions, violation, note='', hashseed=0):
     os.makedirs(os.path.join(OUT, 'replays'), exist_ok=True)
     name = '%s-%d-%s.json' % (check.ID, seed, ('e%d' % -idx) if idx < 0 else str(idx))
     path = os.path.join(OUT, 'replays', name)
     doc = {'property': check.ID, 'kind': violation['kind'], 'verif_seed': seed, 'run_index': idx,
-           'lark_tree_digest': lark_tree_digest(), 'plan': plan, 'decisions': decisions,
+           'hashseed': hashseed, 'lark_tree_digest': lark_tree_digest(), 'plan': plan, 'decisions': decisions,
            'expected_violation': violation, 'note': note}
     with open(path, 'w') as f:
         json.dump(doc, f, indent=1, sort_keys=True, default=repr)
@@ -403,7 +538,8 @@ def replay(check, path, log=print):
 def confirm_in_fresh_interpreter(check, path):
     """a minimised replay file must fail the same way in a fresh process"""
     env = dict(os.environ)
-    env['VERIF_NO_REEXEC_BANNER'] = '1'
+    env.pop('VERIF_REEXECED', None)       # the child must re-exec itself: under the hash seed recorded in the replay file
+    env.pop('PYTHONHASHSEED', None)
     try:
         r = subprocess.run([os.path.join(VERIF, 'check'), check.ID, '--replay', path], capture_output=True, text=True, timeout=600, env=env)
     except subprocess.TimeoutExpired:
@@ -519,47 +655,52 @@ def drive(check, tier, seed, budget_s=None, workers=None, log=print):
     if canary != 'pass':
         log('HARNESS-ERROR determinism canary: ' + canary)
 
-    # 3. the search
+    if os.environ.get('VERIF_DEBUG'):
+        log('debug: setup+fixed+canary took %.1fs' % (time.time() - t_start))
+    # 3. the search (several worker pools, each under its own PYTHONHASHSEED, unless the check opts out)
     remaining = max(5.0, budget_s - (time.time() - t_start))
+    k_pools = int(os.environ.get('VERIF_HASHSEED_POOLS', '0') or 0) or getattr(check, 'HASHSEED_POOLS', 4)
+    hashseeds = pool_hashseeds(seed, max(1, min(k_pools, workers)))
+    searcher = None
     try:
-        agg = search(check, tier, seed, remaining, workers, log=log)
+        searcher = Searcher(check, tier, seed, workers, hashseeds=hashseeds, log=log)
+        if os.environ.get('VERIF_DEBUG'):
+            log('debug: pools up at %.1fs' % (time.time() - t_start))
+        remaining = max(5.0, budget_s - (time.time() - t_start))
+        agg = searcher.run(remaining)
+        if os.environ.get('VERIF_DEBUG'):
+            log('debug: search done at %.1fs' % (time.time() - t_start))
     except HarnessError as e:
         log('HARNESS-ERROR %s' % e)
+        if searcher is not None:
+            searcher.close()
         return 2
     agg.merge(fixed_agg)
     agg.wall = time.time() - t_start
+    agg.hashseeds = hashseeds
     violations.extend(agg.violations)
 
-    # 4. minimise, match against known findings, confirm, report
+    # 4. minimise (inside the pool, i.e. under the hash seed, that found it), match against known findings, confirm, report
     reported = []
+    own_hs = hashseeds[0]
     for idx, plan, decisions, viol in violations[:6]:
-        def fails(p, d=None, _kind=viol['kind']):
-            try:
-                o = check.execute(p, forced=d)
-            except Exception:
-                return None
-            return o if (o.violation is not None and o.violation['kind'] == _kind) else None
+        hs = hashseeds[searcher.pool_of(idx)] if isinstance(idx, int) and idx > -1000000 else own_hs
         try:
-            t_min = time.time()
-            mplan, mdec = check.shrink(plan, decisions, viol, fails)
-            o = fails(mplan, mdec)
-            if o is None:            # shrinking went wrong: fall back to the original
-                mplan, mdec = plan, decisions
-                o = fails(plan, decisions) or fails(plan, None)
-            mviol = o.violation if o is not None else viol
-            if o is not None and not mdec:
-                mdec = o.decisions
+            if hs == own_hs:
+                mplan, mdec, mviol, sig, ok = _shrink_task(plan, decisions, viol)
+            else:
+                mplan, mdec, mviol, sig, ok = searcher.shrink(idx, plan, decisions, viol)
         except Exception:
             log('HARNESS-ERROR while minimising: ' + traceback.format_exc())
             mplan, mdec, mviol = plan, decisions, viol
-        sig = check.signature(mplan, mviol)
+            sig = check.signature(mplan, mviol)
         known = next((k for k in opens if k['sig'] == sig), None)
         if known is not None:
             if sig not in seen_known:
                 seen_known[sig] = known
             continue
         iname = idx if isinstance(idx, int) else -(zlib.crc32(str(idx).encode()) % 100000) - 1
-        path = write_replay(check, seed, iname, mplan, mdec, mviol, note='signature=%s source=%s' % (sig, idx))
+        path = write_replay(check, seed, iname, mplan, mdec, mviol, note='signature=%s source=%s' % (sig, idx), hashseed=hs)
         ok, tail = confirm_in_fresh_interpreter(check, path)
         if not ok:
             log('HARNESS-ERROR violation did not reproduce from its replay file in a fresh interpreter: %s\n%s' % (path, tail))
@@ -572,7 +713,9 @@ def drive(check, tier, seed, budget_s=None, workers=None, log=print):
         if o['sig'] not in seen_known:
             log('note: open known finding %s was not reproduced by this run' % o['sig'])
 
-    extra = check.extra_evidence(agg, tier)
+    searcher.close()
+    extra = dict(check.extra_evidence(agg, tier))
+    extra['worker_pool_hashseeds'] = hashseeds
     confirmed = [r for r in reported if r[2]]
     write_evidence(check, tier, seed, agg, len(confirmed), extra=extra, canary=canary)
     log('%s: %d runs (+%d enumerated) in %.1fs, %d distinct non-trivial, %d violation(s), %d known finding(s)'
